@@ -20,6 +20,7 @@ class FileV:
 
     def __init__(self, path: str, mode: str, encoding, errors):
         self.path, self.mode, self.encoding, self.errors = path, mode, encoding, errors
+        self.pos = 0
 
 
 TOTAL_ENCODINGS = {"latin-1", "latin1", "iso-8859-1", "iso8859-1", "l1", "cp437", "cp850", "cp1252-replace"}
@@ -33,13 +34,20 @@ class VFS:
         self.texts: dict = {}
         self.undecodable: set = set()      # absolute paths whose bytes are not valid UTF-8
         self.read_log: list = []
+        self.bytes: dict = {}              # absolute path -> bytes content (binary reads)
 
     def read(self, f: "FileV", node=None):
         a = self.abs(f.path)
         if not self.is_file(a):
             raise PyRaise("FileNotFoundError", node)
         if "b" in f.mode:
-            return b"bytes:" + a.encode()
+            data = self.bytes.get(a, b"bytes:" + a.encode())
+            n = getattr(f, "want", None)
+            if n is None or n < 0:
+                out, f.pos = data[f.pos:], len(data)
+            else:
+                out, f.pos = data[f.pos:f.pos + n], min(len(data), f.pos + n)
+            return out
         self.read_log.append(a)
         enc = (f.encoding or "utf-8").lower().replace("_", "-")
         strict = f.errors in (None, "strict")
@@ -148,6 +156,7 @@ def fs_hook(vfs: VFS):
             raise Unknown(f"file.{args}")
         if kind == "call" and isinstance(f, tuple) and f and f[0] == "filem":
             if f[2] == "read":
+                f[1].want = args[0] if args else kwargs.get("size")
                 return vfs.read(f[1], node)
             if f[2] == "readlines":
                 r = vfs.read(f[1], node)
